@@ -6,8 +6,14 @@ package repeat
 
 // ---- C01 breadth: frame-only contracts ("modifies nothing": every store / append / copy / map write
 // targets memory allocated by the call itself; no functional postcondition is claimed here) ----
-//@ func CirclePoints frameonly
-//@   props C01
+// CirclePoints: exactly `count` points in a fresh array (a negative count panics in make: reported failure, excluded by the precondition).
+//@ func CirclePoints
+//@   props C01 C02
+//@   requires non_negative_count: count >= 0
+//@   returns pts
+//@   ensures [C02] one_point_per_count: len(pts) == count && fresh(pts)
+//@   loop 1:
+//@     invariant [C02] length: 0 <= i && (i <= count || i == 0) && len(final) == count && fresh(final)
 //@ func Circle frameonly
 //@   props C01
 //@ func Spline frameonly
